@@ -13,7 +13,7 @@
      kind = "host"   the paired system call(s) of HostFs: ok / errs / successor state / returned values
      kind = "free"   outside the modelled part of the environment: only "same as the host" is required
      kind = "noslot" the request names a reference the client does not hold (driver artefact, ignored)
-   X = [root, no_open, no_opendir, xattr] describes the export and the configuration.
+   X = [root, no_open, no_opendir, xattr, wb, big] describes the export and the configuration.
    Callers: uid and gid are independent (root with a foreign group, a user with group 0): a created object
    belongs to q.uid : q.gid.  The kill flags of killpriv_v2 (q.kill) are only put on requests whose host
    equivalent does not depend on them (requests that fail, files without set-id bits): they never change
@@ -75,6 +75,10 @@ BigTarget(S, X, q) ==
   q.op \in {"read", "write", "fallocate", "lseek"} /\
   ((("h" \in DOMAIN q) /\ q.h >= 0 /\ HasHandle(S, q.h) /\ IdOf(S, HKey(q.h)) \in X.big)
    \/ (("n" \in DOMAIN q) /\ HasRef(S, q.n) /\ IdOf(S, q.n) \in X.big))
+\* With writeback caching negotiated (X.wb) the client kernel owns O_APPEND: it sends every WRITE with the offset the data has
+\* to go to and the server must honour it. The host equivalent of a handle never carries O_APPEND there (the request's flags
+\* word is only meaningful as the flags of the client's description: histories keep it equal to the flags of the OPEN).
+Fl(X, q) == IF X.wb THEN ToSetOf(q.fl) \ {"APPEND"} ELSE ToSetOf(q.fl)
 Expect(S, X, q, ns, hs, nid) ==
   LET o == q.op IN
   CASE BigTarget(S, X, q) -> Free(S)
@@ -109,7 +113,7 @@ Expect(S, X, q, ns, hs, nid) ==
     [] o = "create" ->
          IF ~HasRef(S, q.p) THEN NoSlot(S)
          ELSE IF GatedName(q.nk, FALSE) THEN Gate(S, {"EINVAL"}, "name")
-         ELSE LET p == IdOf(S, q.p)  fl == ToSetOf(q.fl) IN
+         ELSE LET p == IdOf(S, q.p)  fl == Fl(X, q) IN
               IF IsDir(S, p) /\ q.nk = "plain" /\ q.name \in Names(S, p) /\ "EXCL" \notin fl /\ ~SafeType(S, S.dent[p][q.name])
               THEN Gate(S, AnyErr, "special")
               ELSE LET r == OpenCreate(S, Cred(q), p, q.name, q.nk, fl, q.emode, nid, HKey(hs)) IN
@@ -132,13 +136,13 @@ Expect(S, X, q, ns, hs, nid) ==
          IF ~HasRef(S, q.n) THEN NoSlot(S)
          ELSE IF (o = "open" /\ X.no_open) \/ (o = "opendir" /\ X.no_opendir) THEN Gate(S, {"ENOSYS"}, "nohandle")
          ELSE IF ~SafeType(S, IdOf(S, q.n)) THEN Gate(S, AnyErr, "special")
-         ELSE LET r == OpenIno(S, Root0, IdOf(S, q.n), ToSetOf(q.fl), HKey(hs)) IN Host([r EXCEPT !.ret = NoRet])
+         ELSE LET r == OpenIno(S, Root0, IdOf(S, q.n), Fl(X, q), HKey(hs)) IN Host([r EXCEPT !.ret = NoRet])
     [] o \in {"release", "releasedir"} ->
          IF (o = "release" /\ X.no_open) \/ (o = "releasedir" /\ X.no_opendir) THEN Gate(S, {"ENOSYS"}, "nohandle")
          ELSE IF ~HasHandle(S, q.h) THEN NoSlot(S)
          ELSE Host(Succ(Close(S, HKey(q.h)), NoRet))
-    [] o = "read" -> WithIo(S, q, {}, LAMBDA s, k : WithFl(s, k, ToSetOf(q.fl), LAMBDA s2 : PRead(s2, k, q.off, q.len)))
-    [] o = "write" -> WithIo(S, q, {"RDWR"}, LAMBDA s, k : WithFl(s, k, ToSetOf(q.fl), LAMBDA s2 : PWrite(s2, k, q.off, q.data)))
+    [] o = "read" -> WithIo(S, q, {}, LAMBDA s, k : WithFl(s, k, Fl(X, q), LAMBDA s2 : PRead(s2, k, q.off, q.len)))
+    [] o = "write" -> WithIo(S, q, {"RDWR"}, LAMBDA s, k : WithFl(s, k, Fl(X, q), LAMBDA s2 : PWrite(s2, k, q.off, q.data)))
     [] o = "fallocate" -> IF "OTHER" \in ToSetOf(q.fm) THEN WithIo(S, q, {"RDWR"}, LAMBDA s, k : Fail(s, AnyErr))
                           ELSE WithIo(S, q, {"RDWR"}, LAMBDA s, k : Fallocate(s, k, ToSetOf(q.fm), q.off, q.len))
     [] o \in {"fsync", "fsyncdir"} -> WithIo(S, q, {}, LAMBDA s, k : Fsync(s, k))
@@ -172,7 +176,7 @@ Contained(id, outside) == id \notin outside /\ id # -1
 \* the current size, fallocate allocate/punch/zero within the size, SETATTR without SIZE.
 Neutral(q, cur) ==
   CASE q.op \in {"open", "create"} -> ToSetOf(q.fl) \cap {"TRUNC", "APPEND"} = {}
-    [] q.op = "write" -> "APPEND" \notin ToSetOf(q.fl) /\ q.off + q.len <= cur
+    [] q.op = "write" -> ToSetOf(q.fl) \cap {"TRUNC", "APPEND"} = {} /\ q.off + q.len <= cur
     [] q.op = "fallocate" -> (ToSetOf(q.fm) \ {"KEEP", "UNSHARE"}) \in {{}, {"PUNCH"}, {"ZERO"}} /\ q.off + q.len <= cur
     [] q.op = "setattr" -> "SIZE" \notin ToSetOf(q.valid)
     [] OTHER -> TRUE
